@@ -2,6 +2,7 @@
 //! evaluated on and prints canonical observations, one line per operation.
 mod agg_engine;
 mod auth_engine;
+mod client_engine;
 mod codec_engine;
 mod core_engine;
 mod election_engine;
@@ -23,6 +24,7 @@ fn main() {
         "persist" => persist_engine::main(&args[2], &args[3]),
         "agg" => agg_engine::main(&args[2], &args[3]),
         "session" => session_engine::main(&args[2], &args[3]),
+        "client" => client_engine::main(&args[2], &args[3]),
         "election" => election_engine::main(&args[2], &args[3]),
         other => {
             eprintln!("unknown engine {other}");
